@@ -89,45 +89,77 @@ def control_files(prop):
     return out
 
 
+def _on_patched_copy(prop, rules, cf, prefix):
+    """Apply patch `cf` to a scratch copy of the current /repo tree, rebuild the facts and run the rules there.
+    -> ('skipped', why) | ('ran', [violations])."""
+    tmp = tempfile.mkdtemp(prefix=prefix)
+    try:
+        dst = os.path.join(tmp, 'repo')
+        shutil.copytree(core.REPO, dst, ignore=shutil.ignore_patterns('target', '.git'))
+        r = subprocess.run(['patch', '-p1', '--no-backup-if-mismatch', '-i', cf], cwd=dst,
+                           stdout=subprocess.PIPE, stderr=subprocess.STDOUT, text=True)
+        if r.returncode != 0:
+            return ('skipped', 'patch does not apply to the current tree')
+        try:
+            d = core.build_facts('dev', repo=dst, use_cache=False)
+        except core.Infra as e:
+            return ('skipped', 'does not compile on the current tree: %s' % str(e)[-300:])
+        fx = Facts(os.path.join(d, 'pairing_plus.json'))
+        shutil.rmtree(d, ignore_errors=True)
+        sub = core.Report(prop)
+        try:
+            rules(fx, CfgReport(sub, 'dev'))
+            fired = [o for o in sub.violations()]
+        except Exception as e:   # a crash of the analysis counts as a report ("fail closed")
+            fired = [{'rule': 'internal', 'instance': 'exception', 'detail': repr(e)}]
+        return ('ran', fired)
+    finally:
+        shutil.rmtree(tmp, ignore_errors=True)
+
+
+def _worker(job):
+    prop, mod, qual, cf, prefix = job
+    import importlib
+    f = importlib.import_module(mod)
+    for part in qual.split('.'):
+        f = getattr(f, part)
+    return _on_patched_copy(prop, f, cf, prefix)
+
+
+def _map_patches(prop, rules, files, prefix):
+    """Patched-copy runs, a few at a time, each in its own process (the analysis keeps per-run global tables)."""
+    files = list(files)
+    workers = max(1, int(os.environ.get('VERIF_JOBS', '6')))
+    mod, qual = getattr(rules, '__module__', None), getattr(rules, '__qualname__', '')
+    if workers == 1 or len(files) < 2 or not mod or '<' in qual:
+        return [(cf, _on_patched_copy(prop, rules, cf, prefix)) for cf in files]
+    import multiprocessing
+    from concurrent.futures import ProcessPoolExecutor
+    try:
+        with ProcessPoolExecutor(max_workers=workers, mp_context=multiprocessing.get_context('fork')) as ex:
+            out = list(ex.map(_worker, [(prop, mod, qual, cf, prefix) for cf in files]))
+        return list(zip(files, out))
+    except Exception:
+        return [(cf, _on_patched_copy(prop, rules, cf, prefix)) for cf in files]
+
+
 def run_controls(prop, rules, rep):
     """Apply every seeded mutant registered for `prop` to a scratch copy of the *current*
     /repo tree, rebuild the facts there and require that the rules fire.  A control whose
     hunk no longer applies is reported as skipped (never as passed)."""
     results = []
-    for cf in control_files(prop):
+    for cf, (st, info) in _map_patches(prop, rules, control_files(prop), 'ppctl.'):
         name = os.path.relpath(cf, core.VERIF)
-        tmp = tempfile.mkdtemp(prefix='ppctl.')
-        try:
-            dst = os.path.join(tmp, 'repo')
-            shutil.copytree(core.REPO, dst, ignore=shutil.ignore_patterns('target', '.git'))
-            r = subprocess.run(['patch', '-p1', '--no-backup-if-mismatch', '-i', cf], cwd=dst,
-                               stdout=subprocess.PIPE, stderr=subprocess.STDOUT, text=True)
-            if r.returncode != 0:
-                results.append({'control': name, 'status': 'skipped', 'why': 'patch does not apply to the current tree'})
-                rep.notes.append('control %s skipped: does not apply' % name)
-                continue
-            try:
-                d = core.build_facts('dev', repo=dst, use_cache=False)
-            except core.Infra as e:
-                results.append({'control': name, 'status': 'skipped', 'why': 'mutant does not compile: %s' % str(e)[-300:]})
-                continue
-            fx = Facts(os.path.join(d, 'pairing_plus.json'))
-            shutil.rmtree(d, ignore_errors=True)
-            sub = core.Report(prop)
-            try:
-                rules(fx, CfgReport(sub, 'dev'))
-                fired = [o for o in sub.violations()]
-            except Exception as e:   # a crash of the analysis on a mutant counts as "fail closed"
-                fired = [{'rule': 'internal', 'instance': 'exception', 'detail': repr(e)}]
-            if fired:
-                results.append({'control': name, 'status': 'detected',
-                                'by': sorted(set('%s|%s' % (o['rule'], o['instance']) for o in fired))[:6]})
-                rep.ok('CONTROL', name, 'seeded mutant detected by %s' % ', '.join(sorted(set(o['rule'] for o in fired))))
-            else:
-                results.append({'control': name, 'status': 'MISSED'})
-                rep.fail('CONTROL', name, 'a seeded property-breaking mutant is not detected any more: the rule has gone vacuous')
-        finally:
-            shutil.rmtree(tmp, ignore_errors=True)
+        if st == 'skipped':
+            results.append({'control': name, 'status': 'skipped', 'why': info})
+            rep.notes.append('control %s skipped: %s' % (name, info[:60]))
+        elif info:
+            results.append({'control': name, 'status': 'detected',
+                            'by': sorted(set('%s|%s' % (o['rule'], o['instance']) for o in info))[:6]})
+            rep.ok('CONTROL', name, 'seeded mutant detected by %s' % ', '.join(sorted(set(o['rule'] for o in info))))
+        else:
+            results.append({'control': name, 'status': 'MISSED'})
+            rep.fail('CONTROL', name, 'a seeded property-breaking mutant is not detected any more: the rule has gone vacuous')
     return results
 
 
@@ -162,39 +194,33 @@ def benign_files(prop):
 
 
 def run_benign(prop, rules, rep):
-    """The rules must stay silent on every behaviour-preserving edit of the property's files."""
+    """The rules must stay silent on behaviour-preserving edits of the property's files.  The thorough tier runs a
+    deterministic sample (at most VERIF_BENIGN_MAX, default 24: all of controls/benign that touch the property's files
+    first, then an even spread over the agents' rounds); the complete set is run by tools/run_benign_par.sh."""
     results = []
-    for cf in benign_files(prop):
+    files = benign_files(prop)
+    cap = max(1, int(os.environ.get('VERIF_BENIGN_MAX', '24')))
+    if len(files) > cap:
+        mine = [f for f in files if os.sep + 'benign' + os.sep in f]
+        theirs = [f for f in files if f not in mine]
+        keep = mine[:cap]
+        room = cap - len(keep)
+        if room > 0 and theirs:
+            step = len(theirs) / float(room)
+            keep += [theirs[int(k * step)] for k in range(room)]
+        skipped_n = len(files) - len(keep)
+        files = keep
+        rep.notes.append('%d further behaviour-preserving edits not run in this tier (tools/run_benign_par.sh runs all)' % skipped_n)
+    for cf, (st, info) in _map_patches(prop, rules, files, 'ppben.'):
         name = os.path.relpath(cf, core.VERIF)
-        tmp = tempfile.mkdtemp(prefix='ppben.')
-        try:
-            dst = os.path.join(tmp, 'repo')
-            shutil.copytree(core.REPO, dst, ignore=shutil.ignore_patterns('target', '.git'))
-            r = subprocess.run(['patch', '-p1', '--no-backup-if-mismatch', '-i', cf], cwd=dst, stdout=subprocess.PIPE, stderr=subprocess.STDOUT, text=True)
-            if r.returncode != 0:
-                results.append({'benign': name, 'status': 'skipped', 'why': 'patch does not apply to the current tree'})
-                continue
-            try:
-                d = core.build_facts('dev', repo=dst, use_cache=False)
-            except core.Infra:
-                results.append({'benign': name, 'status': 'skipped', 'why': 'does not compile on the current tree'})
-                continue
-            fx = Facts(os.path.join(d, 'pairing_plus.json'))
-            shutil.rmtree(d, ignore_errors=True)
-            sub = core.Report(prop)
-            try:
-                rules(fx, CfgReport(sub, 'dev'))
-                fired = sub.violations()
-            except Exception as e:
-                fired = [{'rule': 'internal', 'instance': 'exception', 'detail': repr(e)}]
-            if fired:
-                results.append({'benign': name, 'status': 'FALSE-ALARM', 'by': ['%s|%s' % (o['rule'], o['instance']) for o in fired][:4]})
-                rep.fail('BENIGN', name, 'the rules fire on a behaviour-preserving edit: %s' % [o['detail'][:120] for o in fired][:2])
-            else:
-                results.append({'benign': name, 'status': 'silent'})
-                rep.ok('BENIGN', name, 'rules stay silent on this behaviour-preserving edit')
-        finally:
-            shutil.rmtree(tmp, ignore_errors=True)
+        if st == 'skipped':
+            results.append({'benign': name, 'status': 'skipped', 'why': info})
+        elif info:
+            results.append({'benign': name, 'status': 'FALSE-ALARM', 'by': ['%s|%s' % (o['rule'], o['instance']) for o in info][:4]})
+            rep.fail('BENIGN', name, 'the rules fire on a behaviour-preserving edit: %s' % [o['detail'][:120] for o in info][:2])
+        else:
+            results.append({'benign': name, 'status': 'silent'})
+            rep.ok('BENIGN', name, 'rules stay silent on this behaviour-preserving edit')
     return results
 
 
